@@ -521,7 +521,14 @@ class History:
         objs = [o for o in getattr(self, 'sent_objs', []) if o.hdwallet is self.w or any(o.txid == x[0] for x in self.sent)]
         if not objs:
             return self.op_balance()
-        t = self.rng.choice(objs)
+        # preferably one whose output a later stored transaction has consumed since (the object does not know)
+        def consumed(o):
+            pre = '%d-' % self.tid(o.txid)
+            return any(i_.startswith(pre) for (_, _, ins_, _) in self.sent for i_ in ins_.split(',') if ins_)
+        pref = [o for o in objs if consumed(o)]
+        if pref:
+            self.ctx.count('resend-of-consumed-parent-possible')
+        t = self.rng.choice(pref if pref and self.rng.random() < 0.75 else objs)
         stored = any(t.txid == x[0] for x in self.sent)
         try:
             t.send()
@@ -585,6 +592,10 @@ class History:
                 self.op_store_unsent()         # (in every history, once)
             if step_ == 4 and self.hseed % 2 == 0 and self.kind.startswith('hd-'):
                 self.op_neighbour()            # (HD histories with an even number, once)
+            if step_ == self.nops - 3:
+                self.op_send()                 # (in every history: a late spend, mostly of change, and then the object of an
+            if step_ == self.nops - 2:
+                self.op_resend()               #  earlier transaction sent again)
             rng.choice(pool)()
         # a final drain: sweep, then look again
         self.final = True
